@@ -38,7 +38,7 @@ TRUSTED_BASE = [
 # per property: extra Coq targets (harness glue), whether the driver needs a second build, etc.
 PROPS = {}
 def prop(pid, **kw):
-    d = dict(harness_v=f"Harness/{pid}H.vo", driver=True, tags="verif", extra_builds=[], timeout_quick=900, timeout_thorough=7200)
+    d = dict(harness_v=f"Harness/{pid}H.vo", driver=pid.lower(), tags="verif", race=False, extra_builds=[], timeout_quick=900, timeout_thorough=7200)
     d.update(kw)
     PROPS[pid] = d
 
@@ -336,11 +336,11 @@ def main():
         # 3. harness
         drv_res = None
         shard_results = []
-        if cfg["driver"]:
-            binp = os.path.join(HARNESS, "bin", "drv")
+        if cfg["driver"] and os.path.isdir(os.path.join(HARNESS, "cmd", cfg["driver"])):
+            binp = os.path.join(HARNESS, "bin", cfg["driver"])
             os.makedirs(os.path.dirname(binp), exist_ok=True)
-            rc, out, dt = go_build(binp, "./cmd/drv", tags=cfg["tags"])
-            log.append(f"== go build drv ({dt:.1f}s)\n" + out)
+            rc, out, dt = go_build(binp, "./cmd/" + cfg["driver"], tags=cfg["tags"], race=cfg["race"])
+            log.append(f"== go build {cfg['driver']} ({dt:.1f}s)\n" + out)
             if rc != 0:
                 broken.append("harness build against /repo failed (correspondence cannot run): " + out[-1500:])
             else:
